@@ -107,6 +107,9 @@ func handoffScenarios(tier string) []clustermc.Scenario {
 // C12BinderHalf is set by package checks/c12binder (kept separate: it needs the binder wiring).
 var C12BinderHalf func(tier string) (map[string]any, []engine.Violation)
 
+// C12EndToEnd is set by package checks/c12binder: scenarios whose bind events are real binder reconciles.
+var C12EndToEnd func(tier string) []clustermc.Scenario
+
 func C12() *clustermc.Family {
 	return &clustermc.Family{
 		Extra: func(tier string) (map[string]any, []engine.Violation) {
@@ -116,7 +119,13 @@ func C12() *clustermc.Family {
 			return C12BinderHalf(tier)
 		},
 		Property:  "C12",
-		Scenarios: handoffScenarios,
+		Scenarios: func(tier string) []clustermc.Scenario {
+			out := handoffScenarios(tier)
+			if C12EndToEnd != nil {
+				out = append(out, C12EndToEnd(tier)...)
+			}
+			return out
+		},
 		Depth: func(tier string) int {
 			if tier == "thorough" {
 				return 5
